@@ -94,6 +94,9 @@ Suggest(recv, acc) ==
             IN MinSet({j \in ok : ds[j] = m})            \* the earliest minimal one
 
 (* ------------------------------- machine -------------------------------- *)
+\* the accepted strings within the budget of the received one (C14 only asks that a suggestion names one of these)
+Close(recv, acc) == {j \in 1..Len(acc) : DistDP(recv, acc[j]) <= Budget(ByteLen(recv))}
+
 Init == r = <<>> /\ t = <<>>
 GrowR(c) == Len(r) < MaxLen /\ t = <<>> /\ r' = Append(r, c) /\ t' = t    \* r first, then t: every pair once
 GrowT(c) == Len(t) < MaxLen /\ t' = Append(t, c) /\ r' = r
